@@ -59,6 +59,8 @@ CountKind(log, kind, i) == IF i > Len(log) THEN 0
 Count(kind) == CountKind(call.log, kind, 1)
 FirstOf(kind) == call.log[CHOOSE i \in 1..Len(call.log) : call.log[i].e = kind /\
                               \A j \in 1..(i - 1) : call.log[j].e # kind]
+\* wiping of automatic temporaries is allowed everywhere (it is how the library meets C16)
+OnlyStackWipes == \A i \in 1..Len(call.log) : call.log[i].e = "Memzero" /\ call.log[i].blk = 0 - 1
 AllocFailed == \E i \in 1..Len(call.log) : call.log[i].e = "Alloc" /\ call.log[i].blk = 0
 AllocdBlocks == { call.log[i].blk : i \in { j \in 1..Len(call.log) : call.log[j].e = "Alloc" /\ call.log[j].blk # 0 } }
 
@@ -101,11 +103,14 @@ OpProps(op) ==
       [] op = "Free" -> {"C15", "C16"}
       [] OTHER -> {}
 
+\* a proper prefix of what was due: the phrase was cut short (C17: no phrase is ever truncated)
+CutShort(x, full) == Len(x) < Len(full) /\ x = SubSeq(full, 1, Len(x))
+
 NfcConds(ev, dec) ==
     << Cond("nfc-through-injected", {"C18", "C13"}, ev.impl = deps.nfc),
        Cond("nfc-only-in-encode-of-composing-language", {"C03", "C13"}, G(call.a.lang).compose),
        Cond("nfc-once", {"C03", "C13"}, Count("Nfc") = 0),
-       Cond("nfc-of-the-decomposed-phrase", {"C03", "C13"}, ev["in"] = dec),
+       Cond("nfc-of-the-decomposed-phrase", {"C03", "C13"} \cup (IF CutShort(ev["in"], dec) THEN {"C17"} ELSE {}), ev["in"] = dec),
        \* environment assumption: the injected normaliser agrees with the golden Unicode data
        Cond("env-nfc-agrees-with-golden", {"ENV"},
             (ev["in"] = dec /\ ev.full < StrSize)
@@ -222,7 +227,9 @@ LedgerConds(r, newblk) ==
     LET expect == IF call.op = "Free" /\ call.a.h # 0
                   THEN call.blocks0 \ {heap[call.a.h].blk}
                   ELSE IF newblk # 0 THEN call.blocks0 \cup {newblk} ELSE call.blocks0
-    IN << Cond("no-block-leaked-or-lost", {"C15", "C13"}, DOMAIN blocks = expect) >>
+    \* (a failed call must leave no seed allocated: C14 says so too)
+    IN << Cond("no-block-leaked-or-lost", {"C15", "C13"} \cup (IF call.op \in ConstructorOps /\ newblk = 0 THEN {"C14"} ELSE {}),
+               DOMAIN blocks = expect) >>
 
 CommonConds(r) ==
     << Cond("no-secret-residue-on-dead-stack", {"C16"}, r.residue = <<>>) >>
@@ -246,7 +253,7 @@ ConstructorConds(r, exp) ==
 
 EncodeCondsFit(r, outp, fits) ==
     << Cond("phrase-fits-the-public-buffer", {"C17", "C01", "C13"}, fits),
-       Cond("phrase-bytes", {"C03", "C13"} \cup (IF fits THEN {} ELSE {"C17"}), r.str = outp),
+       Cond("phrase-bytes", {"C03", "C13"} \cup (IF fits /\ ~CutShort(r.str, outp) THEN {} ELSE {"C17"}), r.str = outp),
        Cond("returned-length-is-string-length", {"C17", "C13"}, r.ret = Len(r.str)),
        Cond("output-terminated-inside-buffer", {"C17", "C14", "C13"}, r.terminated /\ ~r.spill),
        Cond("composed-iff-language-composes", {"C03", "C13"},
@@ -262,7 +269,7 @@ RetEvalWith(r, dexp, newseed) ==
        CommonConds(r) \o
        CASE op = "Inject" ->
             LedgerConds(r, 0) \o
-            << Cond("inject-uses-no-dependency", {"C13"}, call.log = <<>>) >>
+            << Cond("inject-uses-no-dependency", {"C13"}, OnlyStackWipes) >>
          [] op = "Enable" ->
             LedgerConds(r, 0) \o
             << Cond("enable-returns-number-of-user-bits", {"C10", "C13"}, r.ret = EnableResult(a.lo)) >>
@@ -300,7 +307,7 @@ RetEvalWith(r, dexp, newseed) ==
             << Cond("input-not-modified", {"C14"}, r.intact) >>
          [] op = "Free" ->
             LedgerConds(r, 0) \o
-            << Cond("free-null-does-nothing", {"C15", "C13"}, a.h = 0 => call.log = <<>>),
+            << Cond("free-null-does-nothing", {"C15", "C13"}, a.h = 0 => OnlyStackWipes),
                Cond("seed-block-released-once", {"C15", "C13"}, a.h # 0 => Count("Free") = 1) >>
          [] op = "Encode" ->
             LedgerConds(r, 0) \o
@@ -309,7 +316,7 @@ RetEvalWith(r, dexp, newseed) ==
             LedgerConds(r, 0) \o
             << Cond("serialised-bytes", {"C06", "C13"}, r.img = StoreImage(SeedOf(a.h))),
                Cond("exactly-32-bytes-written", {"C06", "C14", "C13"}, ~r.spill),
-               Cond("store-uses-no-dependency", {"C13"}, call.log = <<>>) >>
+               Cond("store-uses-no-dependency", {"C13"}, OnlyStackWipes) >>
          [] op = "Crypt" ->
             LedgerConds(r, 0) \o
             << Cond("mask-derived-once", {"C12", "C13"}, Count("Kdf") = 1),
@@ -322,17 +329,17 @@ RetEvalWith(r, dexp, newseed) ==
             LedgerConds(r, 0) \o
             << Cond("birthday-value", {"C11", "C13"},
                     FromLimbs16(r.val) = TimeOfBirthday(SeedOf(a.h).birthday)),
-               Cond("query-uses-no-dependency", {"C13"}, call.log = <<>>) >>
+               Cond("query-uses-no-dependency", {"C13"}, OnlyStackWipes) >>
          [] op = "Feature" ->
             LedgerConds(r, 0) \o
             << Cond("feature-query", {"C10", "C13"},
                     r.hi = 0 /\ r.lo = GetFeature(SeedOf(a.h).features, a.lo)),
-               Cond("query-uses-no-dependency", {"C13"}, call.log = <<>>) >>
+               Cond("query-uses-no-dependency", {"C13"}, OnlyStackWipes) >>
          [] op = "IsEncrypted" ->
             LedgerConds(r, 0) \o
             << Cond("encrypted-flag", {"C10", "C12", "C13"},
                     r.ret = (IF IsEncrypted(SeedOf(a.h).features) THEN 1 ELSE 0)),
-               Cond("query-uses-no-dependency", {"C13"}, call.log = <<>>) >>
+               Cond("query-uses-no-dependency", {"C13"}, OnlyStackWipes) >>
          [] OTHER -> << Cond("unknown-operation", {"C13"}, FALSE) >>
         nh ==
           CASE op \in ConstructorOps /\ r.st = StOK -> (r.h :> [seed |-> newseed, blk |-> r.blk]) @@ heap
@@ -340,7 +347,7 @@ RetEvalWith(r, dexp, newseed) ==
             [] op = "Crypt" /\ Count("Kdf") >= 1 ->
                    [heap EXCEPT ![a.h].seed = CryptApply(@, FirstOf("Kdf").out)]
             [] OTHER -> heap
-    IN [conds |-> conds, heap |-> nh]
+    IN [conds |-> conds, heap |-> nh, exp |-> dexp]
 
 RetEvalDecoded(r, dexp) ==
     RetEvalWith(r, dexp,
